@@ -247,14 +247,19 @@ def run(ctx, res):
     rng = ctx.rng
     known = {k["class"]: k for k in C.known_findings("C13")}
     model, impl = ctx.model["C13"], ctx.bins["c13"]
-    nviol = [0]
+    pending = []
 
     def violate(**kw):
-        nviol[0] += 1
         if os.environ.get("C13_DEBUG") and kw.get("kind") == "oracle":
             print("DBG", kw.get("layer"), kw.get("input"), "=>", kw.get("observed"), "| exp:", kw.get("expected"))
-        if nviol[0] <= 6:
+        pending.append(kw)
+
+    def flush():
+        # at most 6 replays; those that name a concrete failing input first
+        pending.sort(key=lambda kw: 0 if kw.get("failing_input", True) else 1)
+        for kw in pending[:6]:
             res.violate(**kw)
+        res.extra["violations_found"] = len(pending)
 
     def hit(cls, example):
         res.known(cls, "class=%s input=%s what=%s (observed: %s)" % (cls, known[cls].get("input", ""), known[cls].get("what", ""), example))
@@ -425,6 +430,7 @@ def run(ctx, res):
         res.extra["l2_outcomes"] = stats2
         res.sample({"layer": "L2", "input": outs[0][0], "status": outs[0][1], "helper_runs": outs[0][2]})
     finally:
+        flush()
         os.chdir(cwd0)
         shutil.rmtree(work, ignore_errors=True)
 
